@@ -75,6 +75,14 @@ def gen_cases(tier, seed):
     for fab in alph.FABRICS:
         for pre in (0, 2):
             keys.append(dict(part="reject", fab=fab, regime=4, pre=pre, how="get_regime"))
+    # the regime may also be supplied by a callable, and through the bulk update
+    for fab in alph.FABRICS:
+        for rg in (0, 7):
+            for via in ("single", "bulk"):
+                keys.append(dict(part="nullcb", fab=fab, regime=rg, via=via))
+        for rg in (2, 3, 5, -1, 8):
+            for via in ("single", "bulk"):
+                keys.append(dict(part="rejectcb", fab=fab, regime=rg, via=via))
     return keys
 
 
@@ -85,7 +93,76 @@ def V(res, key, clause, detail, **kw):
 
 
 def run_case(key):
-    return {"deriv": run_deriv, "pair": run_pair, "null": run_null, "reject": run_reject}[key["part"]](key)
+    return {"deriv": run_deriv, "pair": run_pair, "null": run_null, "reject": run_reject, "nullcb": run_callback, "rejectcb": run_callback}[key["part"]](key)
+
+
+def run_callback(key):
+    """Regime supplied by a get_regime(t, x) callable (constant here), through
+    Mineral.update_orientations and through pydrex.update_all (olivine + enstatite)."""
+    res = empty_result()
+    pd = H.pd()
+    ph, fb = alph.FABRICS[key["fab"]]
+    rg = key["regime"]
+    get_regime = lambda t, x: rg  # noqa
+    if key["via"] == "single":
+        minerals = [H.build_mineral(dict(fab=key["fab"], reg="disl", tex="random", vol="uniform", ng=5, prm="default"))]
+        prm = H.params_for(ph, "default")
+    else:
+        other = "enAB" if ph == 0 else "olA"
+        minerals = [H.build_mineral(dict(fab=key["fab"], reg="disl", tex="random", vol="uniform", ng=5, prm="default")), H.build_mineral(dict(fab=other, reg="disl", tex="cluster", vol="uniform", ng=5, prm="default"))]
+        prm = H.params_for(0, "default", assemblage=[pd.MineralPhase(ph), pd.MineralPhase(1 - ph)], fractions=(0.6, 0.4))
+    obs = []
+    for fln in ("gen", "ss_xz", "time"):
+        fl = H.flow(fln)
+        ms = [H.copy.deepcopy(m) for m in minerals]
+        F0 = H.f0("generic")
+        before = [(len(m.orientations), H.snapshot_hashes(m)) for m in ms]
+        res["n"] += 1
+        res["trans"] += 1
+        res["states"] += 1
+        try:
+            with H.time_limit():
+                if key["via"] == "single":
+                    F = ms[0].update_orientations(prm, F0, fl.L, (0.0, 0.5, fl.x), get_regime=get_regime)
+                else:
+                    F = pd.update_all(ms, prm, F0, fl.L, (0.0, 0.5, fl.x), get_regime=get_regime)
+            out = "returned"
+        except Exception as e:
+            out = "raised:" + type(e).__name__
+        obs.append(out)
+        res["outcomes"].append(out)
+        if key["part"] == "rejectcb":
+            res["clauses"]["rejected_update_raises"] = res["clauses"].get("rejected_update_raises", 0) + 1
+            if out == "returned":
+                V(res, key, "rejected_update_raises", {"outcome": out}, flow=fln)
+            res["clauses"]["history_untouched"] = res["clauses"].get("history_untouched", 0) + 1
+            after = [(len(m.orientations), H.snapshot_hashes(m)[: b[0]]) for m, b in zip(ms, before)]
+            if after != before:
+                V(res, key, "history_untouched", {"before": [b[0] for b in before], "after": [a[0] for a in after]}, flow=fln)
+        else:
+            res["clauses"]["null_update_completes"] = res["clauses"].get("null_update_completes", 0) + 1
+            if out != "returned":
+                V(res, key, "null_update_completes", {"outcome": out}, flow=fln)
+                continue
+            for j, m in enumerate(ms):
+                res["clauses"]["orientations_unchanged"] = res["clauses"].get("orientations_unchanged", 0) + 1
+                d = float(np.abs(m.orientations[-1] - m.orientations[-2]).max())
+                if not d <= 1e-12:
+                    V(res, key, "orientations_unchanged", {"dev": d}, flow=fln, mineral=j, form="other")
+                res["clauses"]["fractions_unchanged"] = res["clauses"].get("fractions_unchanged", 0) + 1
+                d = float(np.abs(m.fractions[-1] - m.fractions[-2]).max())
+                if not d <= 1e-12:
+                    V(res, key, "fractions_unchanged", {"dev": d}, flow=fln, mineral=j, form="other")
+                obs.append(digest(m.orientations[-1], m.fractions[-1]))
+            res["clauses"]["F_follows"] = res["clauses"].get("F_follows", 0) + 1
+            Fref = H.ref_F(fl, F0, 0.0, 0.5)
+            err = float(np.abs(np.asarray(F) - Fref).max() / max(1.0, np.abs(Fref).max()))
+            if not err <= H.ode_bound(1, fl.strain(0.0, 0.5)):
+                V(res, key, "F_follows", {"rel_err": err}, flow=fln)
+    res["nontrivial"].append(digest(key))
+    res["obs"] = digest(*obs)
+    res["sample"] = {"case": key, "outcomes": obs[:3]}
+    return res
 
 
 def run_deriv(key):
